@@ -100,9 +100,19 @@ CHECKS = {
                 "hand-modelled and tied by the exhaustive round trip on the crate.",
         "technique": "Coq proof by exhaustive computation over translator-regenerated tables (forallb lifted by forallb_forall) + exhaustive correspondence",
     },
+    "C13": {
+        "text": "Theorems over the rationals for all matrices, points and factors (ring / nsatz): identity, apply(combine a b) = apply b . apply a, "
+                "associativity on points, translation shifts, magnify scales squared distances by f^2, rot_x/y/z preserve distances and dot products "
+                "whenever c^2+s^2=1, level-wise application is a map (independent of how the atom list is split). The Rust expressions (fused multiply-adds) "
+                "are tied to the exact model bit for bit on inputs where binary64 arithmetic is exact, and within a stated forward error bound elsewhere; "
+                "structure-level apply at six levels, sequential and parallel, compared by full snapshot.",
+        "design_ref": "DESIGN.md section 6 C13",
+        "note": "Trusted: Coq kernel, extraction, harness; libm sin/cos; the rounding error bound of the implementation is stated, not proved; rayon's contract.",
+        "technique": "Coq proof (ring identities, nsatz for the rotation isometries over Q) + differential correspondence on exactly representable inputs",
+    },
 }
 
 NOT_APPLICABLE = [
     {"property_id": p, "reason": PENDING}
-    for p in ["C01", "C02", "C03", "C04", "C05", "C06", "C13", "C14", "C15", "C16"]
+    for p in ["C01", "C02", "C03", "C04", "C05", "C06", "C14", "C15", "C16"]
 ]
